@@ -312,6 +312,58 @@ def main():
             print(f"VIOLATION property={prop} replay={p} no-failing-input-found")
             violations += 1
 
+    # ---- 4b''. C10 / C11: values without identity.  Half of the group feeders return nil pointers;
+    #      model and implementation are compared with every argument anonymised: what remains is which
+    #      functions ran, in which order, with HOW MANY elements in every group (and which singles were zero)
+    anon_cov = None
+    if prop in ("C10", "C11") and core_ok:
+        acases = gen.generate_anon(seed + (0 if prop == "C10" else 1), 240 if tier == "quick" else 12000)
+        acases, atraces = common.run_impl_parallel(acases)
+        anon_defs = [
+            "Definition anon_arg (a : arg) : arg := match a with ASingle AZero => ASingle AZero | ASingle _ => ASingle (AProd 0 0 0 0) "
+            "| ASlice l => ASlice (map (fun _ => AProd 0 0 0 0) l) end.",
+            "Definition anon_ev (e : event) : event := match e with EExec f x r args o => EExec f x r (map anon_arg args) "
+            "(match o with OOk _ => OOk [] | y => y end) | c => c end.",
+            "Definition anon (o : oobs) : oobs := mkOObs (vroot (oo_verdict o)) (map anon_ev (filter is_exec (oo_events o))).",
+            "Fixpoint anon_diff (i : nat) (m im : list oobs) : option nat := match m, im with [], [] => None "
+            "| a :: t, b :: t' => if oobs_eqb (anon a) (anon b) then anon_diff (S i) t t' else Some i | _, _ => Some i end.",
+            "Fixpoint mism_anon (i : nat) (cs : list case) : list (nat * nat) := match cs with [] => [] | c :: t => "
+            "match anon_diff 0 (model_obs c) (cs_impl c) with Some j => (i, j) :: mism_anon (S i) t | None => mism_anon (S i) t end end.",
+            "Definition M := Eval vm_compute in mism_anon 0 all_cases.", "Print M."]
+
+        def anon_eval(cs, ts):
+            def one(lo):
+                src = emit.cases_file(list(zip(cs[lo:lo + 250], ts[lo:lo + 250])), extra="Spec Check Cases", defs=anon_defs)
+                o = common.coq_eval(src, timeout=3000)
+                return [(lo + a[0],) + tuple(a[1:]) for a in common.parse_pairs(common.parse_printed(o, "M"))]
+            from concurrent.futures import ThreadPoolExecutor
+            with ThreadPoolExecutor(max_workers=16) as ex:
+                return [x for part in ex.map(one, range(0, len(cs), 250)) for x in part]
+        aM = anon_eval(acases, atraces)
+        nil_elems = sum(1 for t in atraces for ot in t["ops"] for ev in ot["events"] if ev["ev"] == "exec"
+                        for a in (ev.get("args") or []) if a.get("isl") for x in (a.get("l") or []) if not x)
+        anon_cov = dict(histories=len(acases), nil_group_elements_delivered=nil_elems, disagreements=len(set(m[0] for m in aM)),
+                        note="group members that are nil pointers carry no provenance: arguments are anonymised on both sides, "
+                             "the comparison is about executions, their order and the NUMBER of elements of every group")
+        if aM:
+            ci, oi = aM[0][0], aM[0][1]
+
+            def apred(cand):
+                cs, ts = common.run_impl([cand])
+                return bool(anon_eval(cs, ts))
+            small = acases[ci]
+            try:
+                small = shrink(spec, acases[ci], apred)
+            except Exception as e:
+                common.log("shrink failed:", e)
+            cs, ts = common.run_impl([small])
+            p = write_replay(prop, f"anon-{case_hash(small)}",
+                             {"property": prop, "meaning": "with nil group members (functions marked nil_members) a consumer received a different NUMBER of "
+                              "group elements (or different executions happened) than the model prescribes",
+                              "case": cs[0], "implementation_trace": ts[0]})
+            print(f"VIOLATION property={prop} replay={p}")
+            violations += 1
+
     # ---- 4c. C14 / C18: the grammar stream against Parse.v (DryRun container)
     raw_cov = None
     if prop in ("C09", "C14", "C18") and all(f in built for f in ("GoTypes", "Parse", "RunRaw")):
@@ -558,6 +610,9 @@ def main():
         cov["evaluations"] += reent_cov["histories"]
     if coqchk_res:
         cov["coqchk"] = coqchk_res
+    if anon_cov:
+        cov["anonymous_values"] = anon_cov
+        cov["evaluations"] += anon_cov["histories"]
     if vizpanic_cov:
         cov["visualize_never_panics"] = vizpanic_cov
         cov["evaluations"] += vizpanic_cov["histories"]
